@@ -105,10 +105,10 @@ CHECKS = {
         note='Bounds: <= 4 entries / pushes, depth <= 2, capacities 1..4 (evidence). In fixed-depth-builder harnesses the pack step of or is cut (decided by the pack harnesses); the merge step buff_to_bmoc is also decided alone on every strictly increasing buffer of 4 cells (the state after sort + dedup).',
     ),
     'C17': dict(
-        text='For every double position: proj is in [-8,8]x[-2,2] with the sign of lon, inside the HEALPix image facets, and equals the Calabretta-Roukema expressions within 2^-46 from the same libm values (decided compositionally: the real pm1_offset_decompose against its specification, the real proj over any decomposition value allowed by it; the polar products for operands with <= 13 / 10 significant bits); '
+        text='For every double position: proj is in [-8,8]x[-2,2] with the sign of lon; in the equatorial region it is inside the HEALPix image and equals the Calabretta-Roukema expressions within 2^-46 from the same libm values (decided compositionally: the real pm1_offset_decompose against its specification, the real proj over any decomposition value allowed by it); in the polar caps range, sign and side of the column centre (the image clause and the value of the Collignon expressions there are NOT decided by a registered tier, see note); '
              'unproj is in range with the right sign on the whole plane domain; base_cell_from_proj_coo returns a base cell whose closed diamond contains the point for every image point; out-of-range lat / y panic.',
         design_ref='DESIGN.md section 5 C17',
-        note='The two 1e-14 round trips depend on the accuracy of the actual libm and are evaluated only by the native oracle on replay, not decided by the solver. Polar reference clause: cosines with <= 10 significant bits.',
+        note='The two 1e-14 round trips depend on the accuracy of the actual libm and are evaluated only by the native oracle on replay, not decided by the solver. The polar-cap image clause and Collignon value clauses (float-multiplier monotonicity / equivalence) were undecided after 40 min per harness and live in tier extended; they are stated as assumptions (guarantee I) by the plane-cut checks C03, C11, C19. unproj additionally: longitude in the quarter of the facet column of x, on the same side of its central meridian.',
     ),
     'C19': dict(
         text='Per depth, for every cell and every offset pair on the 1/256 lattice of [0, 1]^2: four weights in [0, 1] summing to 1 within 1e-12, cells = the cell or its neighbours, that cell present, weight 1 on it at its centre, '
